@@ -42,6 +42,7 @@
 (*   "ta"     rsync URIs of two trust anchor locators                      *)
 (*   "tah"    HTTPS URIs of two trust anchor locators                      *)
 (*   "notify" rpkiNotify URIs of two CAs (manifests FixedMft(1), (2))      *)
+(*   "notify1" the same, both CAs name the same manifest FixedMft(1)       *)
 (*                                                                         *)
 (* Variant = "as_shipped" is the pinned code: a stored publication point   *)
 (* is the file <repo>/rsync/<authority>/<module>/<path> (store.rs:727), so *)
@@ -56,7 +57,7 @@
 EXTENDS Naturals, Sequences, FiniteSets, TLC
 
 CONSTANTS Variant,   \* "intended" | "as_shipped"
-          Kinds,     \* subset of {"mft", "mftn", "ta", "tah", "notify"}
+          Kinds,     \* subset of {"mft", "mftn", "ta", "tah", "notify", "notify1"}
           Mode,      \* "all": every pair | "near": pairs one edit apart | "single": one URI, whole alphabet
           HostsR,    \* host names (lower case) of rsync URIs
           HostsH,    \* host names of HTTPS URIs (may contain the oddities "" and "..")
@@ -251,16 +252,21 @@ EntriesTa(u, i) ==
        ELSE {}
   ELSE {E(TaPath(u), "file", "run")} \cup (IF InTaDir(u) THEN {E(DumpTaPath(u), "file", "dump")} ELSE {})
 
-(* slot: which of two repositories with the same authority the dump meets  *)
-(* second (directory order; either is possible, so both are entries).      *)
-EntriesNotify(n, i, other) ==
-  LET slots == IF other.sch # "none" /\ CanonAuth(other) = CanonAuth(n) /\ ~Equivalent(other, n)
-               THEN {0, 1} ELSE {0} IN
-  {E(RepoDir(n), "dir", "run"), E(StorePointPath(FixedMft(i), n), "file", "run")}
+(* Two RRDP repositories with the same authority: the dump registry names  *)
+(* the one it meets first after the authority, the other gets "-1"         *)
+(* appended; which is first is the directory order.  Either way the names  *)
+(* differ: the model gives the plain name to the first URI ("dump") and    *)
+(* lists the other assignment as "dump2" (never part of a clash).          *)
+(* mi: which fixed manifest the CA names (kind notify1: both the same).    *)
+EntriesNotify(n, i, other, mi) ==
+  LET same == other.sch # "none" /\ CanonAuth(other) = CanonAuth(n) /\ ~Equivalent(other, n)
+      main == IF same /\ i = 2 THEN 1 ELSE 0 IN
+  {E(RepoDir(n), "dir", "run"), E(StorePointPath(FixedMft(mi), n), "file", "run")}
   \cup (IF CanonAuth(n) \in {"", "."} THEN {}  \* an archive directly in cache/rrdp is a stray file for the cleanup
         ELSE {E(RrdpArchivePath(n), "file", "run")})               \* (rrdp/base.rs:493): gone after the run
   \cup (IF CanonAuth(n) = ".." THEN {}      \* the dump walks stored/rrdp (store.rs:268): this one is not below it
-        ELSE {E(DumpObjectPath(FixedMft(i), n, s), "file", IF s = 0 THEN "dump" ELSE "dump2") : s \in slots})
+        ELSE {E(DumpObjectPath(FixedMft(mi), n, main), "file", "dump")}
+             \cup (IF same THEN {E(DumpObjectPath(FixedMft(mi), n, 1 - main), "file", "dump2")} ELSE {}))
 
 Entries(k, u, i, other) ==
   IF u.sch = "none" THEN {}
@@ -268,7 +274,8 @@ Entries(k, u, i, other) ==
          [] k = "mftn"   -> EntriesMft(u, i, FixedNotify)
          [] k = "ta"     -> EntriesTa(u, i)
          [] k = "tah"    -> EntriesTa(u, i)
-         [] k = "notify" -> EntriesNotify(u, i, other)
+         [] k = "notify" -> EntriesNotify(u, i, other, i)
+         [] k = "notify1" -> EntriesNotify(u, i, other, 1)
 
 ----------------------------------------------------------------------------
 (* Universe *)
@@ -281,7 +288,7 @@ RsyncUris(S) == UNION {[sch : {"rsync"}, sc : SCases, host : {h}, hc : HC(h), po
                         path : PathsOver(S)] : h \in HostsR}
 HttpsUris(S) == UNION {[sch : {"https"}, sc : SCases, host : {h}, hc : HC(h), port : Ports, mod : {""},
                         path : PathsOver(S)] : h \in HostsH}
-UrisOf(k, S) == IF k \in {"tah", "notify"} THEN HttpsUris(S) ELSE RsyncUris(S)
+UrisOf(k, S) == IF k \in {"tah", "notify", "notify1"} THEN HttpsUris(S) ELSE RsyncUris(S)
 
 (* URIs one edit away from u: the pairs on which a path builder that drops *)
 (* or folds one part of the URI shows, plus all extensions of the path.    *)
@@ -352,9 +359,10 @@ C30_Confined ==
 Clash(a, b) ==
   LET x == a.n
       y == b.n IN
-  \/ x = y /\ (a.t = "file" \/ b.t = "file")
-  \/ IsProperPrefix(x, y) /\ a.t = "file"
-  \/ IsProperPrefix(y, x) /\ b.t = "file"
+  /\ a.w # "dump2" /\ b.w # "dump2"
+  /\ \/ x = y /\ (a.t = "file" \/ b.t = "file")
+     \/ IsProperPrefix(x, y) /\ a.t = "file"
+     \/ IsProperPrefix(y, x) /\ b.t = "file"
 
 ClashingEntries == {<<a, b>> \in ents[1] \X ents[2] : Clash(a, b)}
 
